@@ -231,6 +231,36 @@ func c06Build(template string) (*c06Prog, bool) {
 			cond = fmt.Sprintf("(%s(%s) == 1 || %s) && %s", av.Placeholder(), t0, flag(), flag())
 		}
 		w("script %s {\n  if (%s) {\n    %s\n  }\n}", s.Placeholder(), cond, p.cmdWith(u1, "@"+t1))
+	case "autovar-and-run", "dowhile-autovar":
+		s, o := script()
+		av := p.atoms.New(ClsPlainCmd, "av", "cmds")
+		res := p.atoms.New(ClsIdent, "res", "")
+		p.avs = append(p.avs, AVSpec{Name: A(av), VarName: A(res), Pos: -1})
+		avLine := func(u *c06Use) {
+			u.linePre = func() interp.Value { return cat("\t", av.Val, " ") }
+			u.linePost = func() interp.Value { return "" }
+		}
+		if template == "autovar-and-run" {
+			// a run of four '&&' operands: the AutoVar commands with inline text
+			// are the second and third (middle) ones
+			u0, t0 := p.text(o, "", nil)
+			u1, t1 := p.text(o, "", nil)
+			u2, t2 := p.text(o, "", nil)
+			av2 := p.atoms.New(ClsPlainCmd, "av", "cmds")
+			p.avs = append(p.avs, AVSpec{Name: A(av2), VarName: A(res), Pos: -1})
+			avLine(u0)
+			u1.linePre = func() interp.Value { return cat("\t", av2.Val, " ") }
+			u1.linePost = func() interp.Value { return "" }
+			cond := fmt.Sprintf("%s && %s(%s) && %s(%s) == 2 && %s", flag(), av.Placeholder(), t0, av2.Placeholder(), t1, flag())
+			w("script %s {\n  if (%s) {\n    %s\n  }\n}", s.Placeholder(), cond, p.cmdWith(u2, "@"+t2))
+		} else {
+			// do...while: the body is written (and numbered) before the condition
+			u0, t0 := p.text(o, "", nil)
+			u1, t1 := p.text(o, "", nil)
+			u2, m2 := p.moves(o, 1)
+			avLine(u1)
+			w("script %s {\n  do {\n    %s\n    %s\n  } while (%s(%s) == 1)\n}", s.Placeholder(), p.cmdWith(u0, "@"+t0), p.cmdWith(u2, "@"+m2), av.Placeholder(), t1)
+		}
 	case "poryswitch-selected", "poryswitch-fallback":
 		s, o := script()
 		key := p.atoms.New(ClsIdent, "swkey", "")
@@ -588,7 +618,7 @@ func c06ClashCaseFull(kind string, userFirst, sameContent bool) *Case {
 }
 
 var c06Templates = []string{"one", "second-arg", "two", "types", "same-content-different-type", "two-scripts", "control-flow", "switch",
-	"autovar-chain", "autovar-group", "poryswitch-selected", "poryswitch-fallback", "poryswitch-selected-without-text", "mapscripts", "mapscripts-moves", "const-named-like-content", "moves-two", "moves-and-text"}
+	"autovar-chain", "autovar-group", "autovar-and-run", "dowhile-autovar", "poryswitch-selected", "poryswitch-fallback", "poryswitch-selected-without-text", "mapscripts", "mapscripts-moves", "const-named-like-content", "moves-two", "moves-and-text"}
 
 // RunC06 is the check of property C06.
 func RunC06(env *Env, rep *Report) {
